@@ -2,7 +2,12 @@
 
 * `Link`, `Link.flip`                    — `discovery.Link` (namedtuple dpid1,port1,dpid2,port2), `flip` (:55-56)
 * `switchesOf`, `hasSelfLink`            — `switches` set (:59-64); `assert s1 is not s2` (:73) fires iff some link joins a switch to itself
-* `goodLink`, `nbrs`, `portToward`       — the culling loop (:66-86) in closed form.  For an unordered pair {a,b} the loop handles the
+* `Entry`, `AMap`, `build`, `cullBody`, `cullInner`, `cullOuter` — the `adj` dict-of-dicts and the culling loop (:58-86) AS WRITTEN: `adj[l.dpid1][l.dpid2].append(l)`,
+    `for s1 in switches: for s2 in switches:` (iteration order of the set = `order`, an oracle argument), `s2 not in adj[s1]`,
+    `isinstance(…, list)`, `assert s1 is not s2`, first `l` with `flip(l) in adjacency`, the two assignments, the two `del`s.
+    The nested dicts are one insertion-ordered association list keyed by (s1, s2): `adj[v].items()` is the sub-sequence with first
+    component `v` (the outer dict's own key order is never observed).  `calcTreeL` = `_calc_spanning_tree` with this loop.
+* `goodLink`, `nbrs`, `portToward`, `calcTree` — the same in CLOSED FORM (proved equal to the loop: `Proofs/STreeLoop.calcTreeL_eq`).  For an unordered pair {a,b} the loop handles the
     ordered pair that comes first in the iteration order of the `switches` set (`order`, an oracle argument: the code iterates a
     Python `set`).  If `a` comes first: the first `l` of `adj[a][b]` (links a→b in `adjacency` dict order) with `flip(l) in adjacency`
     gives `adj[a][b] = l.port1`, `adj[b][a] = l.port2`; if there is none both entries are deleted (when there is no link a→b at
@@ -46,11 +51,22 @@ def linksFrom (adj : List Link) (a b : Nat) : List Link := adj.filter fun l => l
 def goodLink (adj : List Link) (a b : Nat) : Option Link :=
   (linksFrom adj a b).find? fun l => decide (l.flip ∈ adj)
 
+/-- `dedup` for switch pairs -/
+def dedupP : List (Nat × Nat) → List (Nat × Nat) → List (Nat × Nat)
+  | _, [] => []
+  | seen, x :: xs => if x ∈ seen then dedupP seen xs else x :: dedupP (x :: seen) xs
+
+/-- the (dpid1, dpid2) keys of `adj` in first-insertion order -/
+def keysOf (adj : List Link) : List (Nat × Nat) := dedupP [] (adj.map fun l => (l.dpid1, l.dpid2))
+
 /-- keys of `adj[a]` after culling, in insertion order -/
 def nbrs (adj : List Link) (a : Nat) : List Nat :=
-  (dedup [] ((adj.filter fun l => l.dpid1 = a).map (·.dpid2))).filter fun b => (goodLink adj a b).isSome
+  ((keysOf adj).filter fun k => decide (k.1 = a) && (goodLink adj k.1 k.2).isSome).map (·.2)
 
-def before (order : List Nat) (a b : Nat) : Bool := order.idxOf a < order.idxOf b
+/-- does `a` come before `b` in the iteration order -/
+def before : List Nat → Nat → Nat → Bool
+  | [], _, _ => false
+  | x :: xs, a, b => if x = a then decide (a ≠ b) else if x = b then false else before xs a b
 
 /-- `adj[a][b]` after culling: the port on `a` that leads to `b` -/
 def portToward (adj : List Link) (order : List Nat) (a b : Nat) : Option Nat :=
@@ -114,13 +130,98 @@ def withPorts (adj : List Link) (order : List Nat) : List (Nat × Nat) → Excep
   | (v, w) :: r =>
     match portToward adj order v w, portToward adj order w v with
     | some pv, some pw => (withPorts adj order r).map (⟨v, pv, w, pw⟩ :: ·)
-    | _, _ => .error "KeyError"
+    | _, _ => .error "TypeError"
 
 /-- `_calc_spanning_tree()`; the returned dict is `sw ↦ {(w, pv) | ⟨sw,pv,w,_⟩} ∪ {(v, pw) | ⟨v,_,sw,pw⟩}` -/
 def calcTree (adj : List Link) (order : List Nat) : Except String (List TEdge) :=
   match calcEdges adj with
   | .error e => .error e
   | .ok es => withPorts adj order es
+
+/-! ### the culling loop as written -/
+
+/-- a value of `adj[s1][s2]`: the list of links built at :61-62, or the port number assigned at :78-79 -/
+inductive Entry where
+  | links (ls : List Link)
+  | port (p : Nat)
+  deriving DecidableEq, Repr
+
+/-- `adj`: (s1, s2) ↦ entry, in key insertion order -/
+abbrev AMap := List ((Nat × Nat) × Entry)
+
+def AMap.get : AMap → Nat × Nat → Option Entry
+  | [], _ => none
+  | (k', e) :: r, k => if k' = k then some e else AMap.get r k
+
+/-- dict assignment: in place when the key is present, a new key at the end otherwise -/
+def AMap.set : AMap → Nat × Nat → Entry → AMap
+  | [], k, e => [(k, e)]
+  | (k', e') :: r, k, e => if k' = k then (k', e) :: r else (k', e') :: AMap.set r k e
+
+/-- `del` -/
+def AMap.erase (m : AMap) (k : Nat × Nat) : AMap := m.filter fun x => x.1 ≠ k
+
+/-- :62 `adj[l.dpid1][l.dpid2].append(l)` -/
+def addLink (m : AMap) (l : Link) : AMap :=
+  match m.get (l.dpid1, l.dpid2) with
+  | some (.links ls) => m.set (l.dpid1, l.dpid2) (.links (ls ++ [l]))
+  | some (.port _) => m                                      -- cannot happen while building
+  | none => m.set (l.dpid1, l.dpid2) (.links [l])
+
+/-- :61-64 -/
+def build : List Link → AMap → AMap
+  | [], m => m
+  | l :: ls, m => build ls (addLink m l)
+
+/-- body of the double loop for (s1, s2), :69-86 -/
+def cullBody (adj : List Link) (s1 s2 : Nat) (m : AMap) : Except String AMap :=
+  match m.get (s1, s2) with
+  | none => .ok m                                            -- `if s2 not in adj[s1]: continue`
+  | some (.port _) => .ok m                                  -- `if not isinstance(adj[s1][s2], list): continue`
+  | some (.links ls) =>
+    if s1 = s2 then .error "AssertionError"                  -- `assert s1 is not s2`
+    else match ls.find? fun l => decide (l.flip ∈ adj) with
+      | some l => .ok ((m.set (s1, s2) (.port l.port1)).set (s2, s1) (.port l.port2))
+      | none =>
+        let m1 := m.erase (s1, s2)
+        .ok (if (m1.get (s2, s1)).isSome then m1.erase (s2, s1) else m1)
+
+/-- `for s2 in switches:` -/
+def cullInner (adj : List Link) (s1 : Nat) : List Nat → AMap → Except String AMap
+  | [], m => .ok m
+  | s2 :: r, m =>
+    match cullBody adj s1 s2 m with
+    | .error e => .error e
+    | .ok m' => cullInner adj s1 r m'
+
+/-- `for s1 in switches:` -/
+def cullOuter (adj : List Link) (order : List Nat) : List Nat → AMap → Except String AMap
+  | [], m => .ok m
+  | s1 :: r, m =>
+    match cullInner adj s1 order m with
+    | .error e => .error e
+    | .ok m' => cullOuter adj order r m'
+
+/-- keys of `adj[v]` (`adj[v].items()` order) -/
+def nbrsM (m : AMap) (v : Nat) : List Nat := (m.filter fun x => x.1.1 = v).map (·.1.2)
+
+/-- `tree[v].add((w, adj[v][w]))`, `tree[w].add((v, adj[w][v]))`: a value that is still a list (or a missing key, which the
+    defaultdict turns into `[]`) is unhashable -/
+def withPortsM (m : AMap) : List (Nat × Nat) → Except String (List TEdge)
+  | [] => .ok []
+  | (v, w) :: r =>
+    match m.get (v, w), m.get (w, v) with
+    | some (.port pv), some (.port pw) => (withPortsM m r).map (⟨v, pv, w, pw⟩ :: ·)
+    | _, _ => .error "TypeError"
+
+/-- `_calc_spanning_tree()` with the culling loop as written -/
+def calcTreeL (adj : List Link) (order : List Nat) : Except String (List TEdge) :=
+  match cullOuter adj order order (build adj []) with
+  | .error e => .error e
+  | .ok m =>
+    let sw := switchesOf adj
+    let r := run (nbrsM m) (2 * sw.length) (init sw)
+    if r.q.isEmpty then withPortsM m r.edges.reverse else .error "fuel"
 
 def treeKeysRaw : List TEdge → List Nat
   | [] => []
@@ -185,7 +286,7 @@ def swLoop (adj : List Link) (t : List TEdge) (conns : Conns) : List Nat → Pre
 
 /-- `_update_tree()`; an exception of `_calc_spanning_tree` leaves `_prev` alone and sends nothing -/
 def updateTree (adj : List Link) (order : List Nat) (conns : Conns) (pv : Prev) : Except String (Prev × List PortMod) :=
-  match calcTree adj order with
+  match calcTreeL adj order with
   | .error e => .error e
   | .ok t => .ok (swLoop adj t conns (treeKeys t) (pv, []))
 
